@@ -114,7 +114,8 @@ type harness struct {
 	cycleClean     bool
 	cycleN         int
 	cycleScanStart int64
-	cycleFresh     bool // both scans of the last evaluated cycle were verified equal to the disk
+	resetSeq       int64 // sequence at which the last Reset returned (0: none pending a first cycle)
+	cycleFresh     bool  // both scans of the last evaluated cycle were verified equal to the disk
 	expectedPost   map[string]*core.Entry
 	pending        map[string][]pendingResult
 
@@ -533,6 +534,17 @@ func (h *harness) checkPlan(a, b *scanRecord) {
 	anc, at, bt, conflicts := core.Reconcile(a.ancestor, alpha, beta, h.mode)
 	h.s.Count("probe.plans_checked", 1)
 	h.mu.Lock()
+	// C29: a reset clears history. The first cycle whose scans both started
+	// after Reset returned must be given no last-synchronized state at all
+	// (otherwise what disappeared while the session was paused is taken for a
+	// deletion and propagated: content is lost).
+	if h.resetSeq > 0 && a.started > h.resetSeq && b.started > h.resetSeq {
+		h.resetSeq = 0
+		h.s.Count("probe.first_cycle_after_reset", 1)
+		if a.ancestor != nil || b.ancestor != nil {
+			h.s.Violate("C29", "history-survived-reset", "Scan", "the first cycle after Reset works from a last-synchronized state of %s (alpha) / %s (beta) instead of none", render(a.ancestor), render(b.ancestor))
+		}
+	}
 	h.expectedPlan = map[string][]*core.Change{"alpha": at, "beta": bt}
 	// C04 per cycle: if the previous cycle applied everything it planned
 	// exactly and this cycle's scans return exactly the trees that cycle left
@@ -978,6 +990,9 @@ func (h *harness) clientOp(actor string, op simkit.Op) {
 		h.cycleClean = false // ... and the next cycle starts from no ancestor
 		h.mu.Unlock()
 		if err == nil {
+			h.mu.Lock()
+			h.resetSeq = h.next()
+			h.mu.Unlock()
 			if anc, aerr := h.loadArchive(); aerr != nil || anc != nil {
 				h.mu.Lock()
 				stillPaused := h.pausedSince > 0
